@@ -68,6 +68,21 @@ func DrawFunctional(rt *rapid.T, o FuncOpt) *Subject {
 			if !used.Claim("sig|" + sig.TypeKey()) {
 				continue
 			}
+			if len(sig.Params) > 0 && rapid.IntRange(0, 2).Draw(rt, "mem-twin") == 0 {
+				// an earlier call site of the same derived function for a function of the same type that declares one
+				// parameter blank (names are no part of the type: one generated function serves both, and the
+				// function memoized through the other site does read that parameter)
+				twin := &progen.Sig{Results: sig.Results}
+				blank := rapid.IntRange(0, len(sig.Params)-1).Draw(rt, "mem-twin-blank")
+				for i, pa := range sig.Params {
+					nm := fmt.Sprintf("q%d", i)
+					if i == blank {
+						nm = "_"
+					}
+					twin.Params = append(twin.Params, progen.Param{Name: nm, Type: pa.Type})
+				}
+				p.Add("func Mem%sTwin(f %s) any {\n\treturn deriveMem%s(f)\n}\n", id, twin.FuncType(p.T), id)
+			}
 			e := s.newFuncEntry(id, sig)
 			ft := sig.FuncType(p.T)
 			p.Add("func Mem%s(f %s) any {\n\treturn deriveMem%s(f)\n}\n", id, ft, id)
